@@ -657,6 +657,13 @@ def _shard(task: Tuple[int, int, str, int, int]) -> Report:
     return rep
 
 
+def _rts_shard(task: Tuple[int, int, int]) -> Report:
+    from . import c07_runtime as RT
+
+    seed, shard, n = task
+    return RT.run_shard(seed, shard, n)
+
+
 def run(ctx: Ctx) -> Report:
     rsclient.build()
     zygote()
@@ -665,6 +672,8 @@ def run(ctx: Ctx) -> Report:
     n_probe = ctx.pick(263, 700)
     n_split = ctx.pick(40, 60)
     reports = ctx.pmap(_shard, [(i, ctx.seed, ctx.tier, n_probe, n_split) for i in range(nshards)])
+    n_rts = ctx.pick(120, 1200)
+    reports += ctx.pmap(_rts_shard, [(ctx.seed, i, n_rts) for i in range(16)])
     rep = ctx.merge_reports(reports)
     rep.rule = RULE
     rep.exhaustive = False
@@ -687,12 +696,18 @@ def run(ctx: Ctx) -> Report:
         "represented by an attached duck-typed tracer object, not by a running Perfetto trace file",
         "split/twin runs stop at the first halted state (stop_on_halt) or error; split points after such a step "
         "are not used",
+        "runtime-split: CoreRuntime::step(n) in one call vs step(1) x n on generated machine scenarios (timers, "
+        "IMR/ISR writes, HALT/OFF/WAIT; no host events), full observation record compared at equal instruction counts",
     ]
     return rep
 
 
 def replay(ctx: Ctx, case: Dict[str, Any]) -> List[Violation]:
     rsclient.build()
+    if case.get("kind") == "runtime-split":
+        from . import c07_runtime as RT
+
+        return [v for _c, vs, _nt in RT.check_cases([case]) for v in vs]
     zygote()
     rep = Report()
     cores: Tuple[str, ...] = ("py", "rs")
